@@ -102,7 +102,10 @@ def opBag (j : Json) : P Json := do
       pure (bagResToJson (connectBags l r))
     | "make" =>
       let b ← bagOfJson (← jField st "bag")
-      pure (bagResToJson (mkBag b.inputs b.outputs b.edges b.ctx b.virt b.persistent b.optional b.next))
+      let raw : RawBag :=
+        { inputs := b.inputs, outputs := b.outputs, edges := b.edges, ctx := b.ctx, virt := b.virt,
+          persistent := b.persistent, optional := b.optional, next := b.next }
+      pure (bagResToJson (mkBag raw))
     | "loopback" =>
       let b ← bagOfJson (← jField st "bag")
       let f ← bagOfJson (← jField st "fbag")
